@@ -187,7 +187,7 @@ inline T_Wrap<T_Rhs*, T_Sbx> memcpy(rlbox_sandbox<T_Sbx>& sandbox,
   // inside the sandbox and end outside, and vice versa
   // src may or may not be a wrapper, so use unwrap_value
   const void* src_start = detail::unwrap_value(src);
-  detail::check_range_doesnt_cross_app_sbx_boundary<T_Sbx>(src_start, num_val);
+  detail::check_range_doesnt_cross_app_sbx_boundary(sandbox, src_start, num_val);
 
   std::memcpy(dest_start, src_start, num_val);
 
@@ -224,7 +224,7 @@ inline tainted_int_hint memcmp(rlbox_sandbox<T_Sbx>& sandbox,
   // inside the sandbox and end outside, and vice versa
   // src may or may not be a wrapper, so use unwrap_value
   const void* src_start = detail::unwrap_value(src);
-  detail::check_range_doesnt_cross_app_sbx_boundary<T_Sbx>(src_start, num_val);
+  detail::check_range_doesnt_cross_app_sbx_boundary(sandbox, src_start, num_val);
 
   int ret = std::memcmp(dest_start, src_start, num_val);
   tainted_int_hint converted_ret(ret);
@@ -274,7 +274,7 @@ tainted<T*, T_Sbx> copy_memory_or_grant_access(rlbox_sandbox<T_Sbx>& sandbox,
   // using can_grant_deny_access = void;
   if constexpr (detail::has_member_using_can_grant_deny_access_v<T_Sbx> &&
                 same_el_size) {
-    detail::check_range_doesnt_cross_app_sbx_boundary<T_Sbx>(src, source_size);
+    detail::check_range_doesnt_cross_app_sbx_boundary(sandbox, src, source_size);
 
     // The check above only looks at the two ends of the range. Unlike memcpy,
     // nothing limits the size of this buffer to the size of the sandbox, so a
@@ -311,7 +311,7 @@ tainted<T*, T_Sbx> copy_memory_or_grant_access(rlbox_sandbox<T_Sbx>& sandbox,
   if constexpr (same_el_size) {
     rlbox::memcpy(sandbox, copy, src, source_size);
   } else {
-    detail::check_range_doesnt_cross_app_sbx_boundary<T_Sbx>(src, source_size);
+    detail::check_range_doesnt_cross_app_sbx_boundary(sandbox, src, source_size);
     for (size_t i = 0; i < num; i++) {
       copy[i] = src[i];
     }
